@@ -26,7 +26,7 @@ func init() {
 		r.RequireMin("V-COVER", 7*6)
 	})
 	register("C02", backendPkgsPlonk, func(p *Prog, r *Report) {
-		r.Engines = []string{"verifier(V-PASS,V-COVER,V-GUARD-LEN,V-ERR)"}
+		r.Engines = []string{"verifier(V-PASS,V-COVER,V-GUARD-LEN,V-ERR)", "permcycle(PERM-CYCLE)"}
 		r.Explanation = "Static analysis of the 7 generated PLONK Verify functions. Decided: (V-PASS) every accepting exit passes the reviewed check events — BSB22 count guard, witness length guard, subgroup check of every G1 element of the proof (LRO, Z, H, Bsb22Commitments, both opening quotients), Fiat-Shamir binding of every key digest, public input and prover message and the four challenge derivations, the algebraic-relation equality, the linearised-digest MultiExp, kzg.FoldProof and kzg.BatchVerifyMultiPoints — with reviewed argument provenance (which proof/key fields each check depends on); (V-COVER) every Proof field and the public witness reach a check event; (V-GUARD-LEN) variable-length proof parts are length-fixed on accepting paths; (V-ERR) no discarded error; (PERM-CYCLE) in Setup's buildPermutation every entry of the wiring permutation committed in the key is the initial marker or a value of the per-variable last-seen table (no position is made a fixed point), the last-seen table is updated in every iteration of the position loop, and the three wires of every constraint are entered into the position table. NOT decided: that the algebraic identity is the right one, the selector polynomials of the key, KZG internals, challenge ordering (see fsbind when present)."
 		r.RuleText = "one obligation per (rule, sibling package, construct); nontrivial = discharged by a witness"
 		r.Assumptions = []string{cgAssumption, "trust partition: *Proof and the public witness are attacker-controlled; *VerifyingKey and options are trusted", "kzg.FoldProof returns an error unless len(digests)==len(ClaimedValues)"}
@@ -38,7 +38,7 @@ func init() {
 		RunSibling(p, r, "C02")
 		ve.RunTargets("C02", r, "pass", "cover", "guard-len", "err")
 		RunPermCycle(p, r)
-		r.RequireMin("PERM-CYCLE", 7*3)
+		r.RequireMin("PERM-CYCLE", 7*2)
 		r.RequireMin("V-PASS", 7*28)
 		r.RequireMin("V-COVER", 7*8)
 	})
@@ -99,7 +99,7 @@ func init() {
 
 func init() {
 	register("C11", []string{"./..."}, func(p *Prog, r *Report) {
-		r.Engines = []string{"determinism(DET-MAPRANGE,DET-GLOBAL,DET-SOURCE)", "pooluaf(POOL-UAF)", "statereset(STATE-RESET)"}
+		r.Engines = []string{"determinism(DET-MAPRANGE,DET-GLOBAL,DET-SOURCE)", "pooluaf(POOL-UAF)", "statereset(STATE-RESET,STATE-HOOK,OPERAND-STATE)"}
 		r.Explanation = "Static analysis of all compile-time code (packages frontend/..., std/..., constraint/..., internal/... except stats/generator/tests). Decided: (DET-MAPRANGE) no `range` over a map has an order-sensitive effect in its body — a call that can reach a mutator of the constraint system / builder / gadget state in the restricted call graph, an append to a slice that outlives the loop and is not sorted, a write to an output stream, a channel send, or a return of a value taken from the current entry — except the reviewed entries of rules/determinism.json; (DET-GLOBAL) code reachable from frontend.Compile and from every exported function of frontend/... and std/... does not store to, map-update, call a mutating method on, or leak the address of a package-level variable, except the reviewed lock-guarded registries; (DET-SOURCE) the same code calls no clock / random / process-id / reflect map-order source and starts no goroutine, except reviewed entries; (POOL-UAF) every object that compile-time code hands back to a shared pool (sync.Pool.Put / putBuffer) is neither used after the release nor escapes the releasing function (returned, stored, retained by a callee), so concurrent compilations cannot see each other's buffers; (STATE-RESET) every Element field on which a deferred emulated-arithmetic check caches its evaluation (the flag set by evalWithChallenge in evalRound1/2) is cleared by that check's cleanEvaluations, so nothing cached on the user's circuit value survives into the next compilation. NOT decided: byte equality across processes in general (only the absence of the enumerated nondeterminism sources), determinism of third-party encoders."
 		r.RuleText = "one obligation per map-range site in scope, per use of a package-level variable by compile-reachable code, per nondeterminism-source call; nontrivial = needed a reviewed reason; trivial = no order-sensitive effect found"
 		r.Assumptions = []string{"call graph: static callees + class-hierarchy edges on gnark-declared interfaces + signature-matched edges for function values; foreign interface methods are leaves", "builder-state types listed in determinism.go (constraint.System, per-curve system, CoeffTable, r1cs/scs builder, kvstore, multicommitter, commitChecker, emulated.Field, lookup tables)"}
@@ -117,6 +117,7 @@ func init() {
 		RunStateReset(p, r)
 		RunStateHook(p, r)
 		RunOperandState(p, r)
+		r.Explanation += " Also decided: DET-GLOBAL reports stateful interface objects (hashers, writers) held in package-level variables; (STATE-HOOK) a flag that emulated-arithmetic code sets on an element received from its caller is reset unconditionally by GnarkInitHook; (OPERAND-STATE) std/algebra gadgets leave no cache of locally computed objects on operands received from the caller (8 sites do: known finding F14)."
 		r.RequireMin("STATE-RESET", 9)
 		r.RequireMin("POOL-UAF", 3)
 		r.RequireMin("DET-MAPRANGE", 20)
